@@ -289,3 +289,13 @@ func ClearFaults(db SQLExecer, tables ...string) {
 		}
 	}
 }
+
+// InsertionSort is the model of sort.Slice used by the engine (natively unused): it sorts positions 0..n-1 with the caller's
+// less function and a swap supplied by the engine.
+func InsertionSort(n int, less func(i, j int) bool, swap func(i, j int)) {
+	for i := 1; i < n; i++ {
+		for j := i; j > 0 && less(j, j-1); j-- {
+			swap(j, j-1)
+		}
+	}
+}
